@@ -563,6 +563,21 @@ def c11_history_specs():
                                            "any": False, "nolist": False, "child": "", "prior": prior}
 
 
+def c11_identifier_specs():
+    """The same calls with simulator and entity ids that contain characters which mean something to string formatting ({ } %), since
+    connect() builds its messages from them."""
+    gp = [[], [1], [3]]
+    for sg in gp:
+        for dg in gp:
+            for sk in SK:
+                for dk in DK:
+                    for shift in (0, 1):
+                        for weak in (False, True):
+                            for init in (False, True):
+                                yield {"sg": sg, "dg": dg, "pairs": [{"sk": sk, "dk": dk}], "shift": shift, "weak": weak, "init": init,
+                                       "any": False, "nolist": False, "child": "", "ids": "braces"}
+
+
 def _obs(ctx, requests=False):
     """Per-simulator observation sequences: (time, inputs) of every step; with requests=True also the
     attribute lists of every get_data request (a request for data is data-flow, too)."""
@@ -588,6 +603,14 @@ def _c11_row(spec):
         meta["models"]["M"].pop("trigger", None)
         meta["models"]["M"]["any_inputs"] = True
         scn["sims"][1]["meta"] = meta
+    if spec.get("ids") == "braces":
+        from harness import scn as S_
+
+        scn = S_.rename_sids(S_.normalize(scn), {"Sa": "S{a}", "Sb": "Grid{0}%s"})
+        scn["eid_suffix"] = "{k}"
+        sa_, sb_ = "S{a}", "Grid{0}%s"
+    else:
+        sa_, sb_ = "Sa", "Sb"
     res = {}
     prior = spec.get("prior", "")
     if prior == "group_exc":
@@ -605,7 +628,7 @@ def _c11_row(spec):
 
     def attempt(ctx, only=None, res=res):
         w = ctx.world
-        src, dst = ctx.ents["Sa"][0], ctx.ents["Sb"][0]
+        src, dst = ctx.ents[sa_][0], ctx.ents[sb_][0]
         if child == "src":
             src = src.children[0]
         elif child == "dst":
@@ -624,7 +647,7 @@ def _c11_row(spec):
             # an earlier call with the SAME arguments - in particular the same initial_data dict object, as in a loop over
             # destinations - towards another entity; accepted or refused exactly like the call under test
             try:
-                w.connect(src, ctx.ents["Sb"][1], *pairs, **kw)
+                w.connect(src, ctx.ents[sb_][1], *pairs, **kw)
                 res["prior_out"] = "accepted"
             except ScenarioError:
                 res["prior_out"] = "ScenarioError"
@@ -717,7 +740,7 @@ def _parallel_rows(fn, specs, chunk=200):
 
 def c11(tier, seed):
     t0 = time.time()
-    specs = list(c11_specs()) + list(c11_history_specs())
+    specs = list(c11_specs()) + list(c11_history_specs()) + list(c11_identifier_specs())
     rows = _parallel_rows(_c11_rows, specs)
     viol, st, secs = _judge_rows("ConnectRules", "R11", rows)
     findings = [checklib.Finding("C11", clause, case={"id": [clause, n], "kind": "c11", "row": rows[n]}, detail=json.dumps(rows[n]), extra={"row": rows[n]})
@@ -837,9 +860,13 @@ def c12_siblings(rows, universe, limit, rng):
         pair = by[(typ, kj)]
         # (the announced API version must not matter for the classification: older ones go through mosaik's adapters)
         ver = rng.choice(["3.0", "3.0", "3.0.16", "2.4", "2.2", "2.0", "2"])
-        for first in (False, True, "twin"):
+        for first in (False, True, "twin", "named_type"):
             models = {}
-            for any_ in ((first, not first) if first != "twin" else (False,)):
+            if first == "named_type":
+                # a PUBLIC model whose name is also the name of an attribute of mosaik's ModelFactory ("type"), listed first: the
+                # models after it are classified as their descriptions alone are
+                models["type"] = {"public": True, "params": [], "attrs": []}
+            for any_ in ((first, not first) if first not in ("twin", "named_type") else (False,)):
                 r = pair[any_]
                 d = {"public": True, "params": []}
                 for k, n in names.items():
@@ -861,7 +888,7 @@ def c12_siblings(rows, universe, limit, rng):
                         fac = world.start("S")
                         got = {}
                         for name in models:
-                            mm = getattr(fac, name)
+                            mm = fac.models[name] if hasattr(fac, "models") and isinstance(getattr(fac, "models"), dict) else getattr(fac, name)
                             sets = (mm.measurement_inputs, mm.event_inputs, mm.measurement_outputs, mm.event_outputs)
                             got[name] = {"ok": True, **{n: [x for x in W if x in st] for n, st in zip(("rnt", "rtr", "rps", "rnp"), sets)}}
                     except Exception as e:  # noqa: BLE001
@@ -869,13 +896,14 @@ def c12_siblings(rows, universe, limit, rng):
                 finally:
                     world.shutdown()
             # the simulator as a whole is accepted iff both descriptions are; each model's classes are its own
-            want_ok = all(pair[a]["ok"] for a in (False, True)) if first != "twin" else pair[False]["ok"]
-            for any_, name in (((False, "Mno"), (True, "Many")) if first != "twin" else ((False, "Mno"), (False, "Mtwin"))):
+            want_ok = all(pair[a]["ok"] for a in (False, True)) if first not in ("twin", "named_type") else pair[False]["ok"]
+            for any_, name in (((False, "Mno"), (True, "Many")) if first not in ("twin", "named_type") else
+                               ((False, "Mno"), (False, "Mtwin")) if first == "twin" else ((False, "Mno"),)):
                 g, w = got[name], pair[any_]
                 if g["ok"] != want_ok or (g["ok"] and any(g[n] != w[n] for n in ("rnt", "rtr", "rps", "rnp"))):
                     bad.append({"type": typ, "api_version": ver, "lists": json.loads(kj), "any_inputs": any_, "first_model_has_any_inputs": first,
                                 "started": g, "alone": {n: w[n] for n in ("ok", "rnt", "rtr", "rps", "rnp")}})
-    return bad, min(limit, len(keys)) * 3
+    return bad, min(limit, len(keys)) * 4
 
 
 def c12_algebra(universe):
@@ -960,7 +988,7 @@ def c12(tier, seed):
         "evaluations": len(rows) + len(algebra), "distinct_nontrivial": len(rows) + len(algebra),
         "rule": f"every model description with each of attrs / trigger / non-trigger / persistent / non-persistent absent or any subset of {list(universe)} "
                 f"x any_inputs x 3 simulator types ({len(rows)} descriptions; real parse_attrs; result sets compared by membership on the universe plus the witness 'z' "
-                f"for 'any other attribute'); the same over the name universes {list(odd)} and ['q.x', 'q-x'] (names are opaque); plus {sib_n} simulator starts (World.start) of a description together with a sibling model that differs only in any_inputs, both orders, and with a twin model described by the SAME dict object, announcing API version 3.0 / 3.0.16 / 2.4 / 2.2 / 2.0 / 2; plus every InOrOutSet expression x op y, op in |,&,-,==,in over the finite/co-finite sets over the same universe ({len(algebra)} rows)",
+                f"for 'any other attribute'); the same over the name universes {list(odd)} and ['q.x', 'q-x'] (names are opaque); plus {sib_n} simulator starts (World.start) of a description together with a sibling model that differs only in any_inputs, both orders, with a twin model described by the SAME dict object, and after a public model named 'type', announcing API version 3.0 / 3.0.16 / 2.4 / 2.2 / 2.0 / 2; plus every InOrOutSet expression x op y, op in |,&,-,==,in over the finite/co-finite sets over the same universe ({len(algebra)} rows)",
         "exhaustive": True,
         "accepted": sum(1 for r in rows if r["ok"]),
         "record_secs": round(t1 - t0, 1),
@@ -1063,7 +1091,8 @@ def c18_exhaustive(max_ns, max_nd):
     rows = []
     for ns in range(0, max_ns + 1):
         for nd in range(1, max_nd + 1):
-            for evenly, maxc, as_float in [(True, 0, False), (False, 0, False), (False, 1, False), (False, 2, False), (False, 3, False), (False, 2, True)]:
+            # (max_connects is only taken into account when evenly is False: with evenly=True a finite limit changes nothing, however small)
+            for evenly, maxc, as_float in [(True, 0, False), (True, 1, False), (True, 2, False), (False, 0, False), (False, 1, False), (False, 2, False), (False, 3, False), (False, 2, True)]:
                 if not evenly and maxc and ns > nd * maxc:
                     continue
                 for shape in ["lists"] + (["same"] if ns == nd else []) + (["dst_tuple", "dst_gen"] if ns <= 2 else []):
@@ -1092,8 +1121,8 @@ def c18(tier, seed):
     for _ in range(nseeded):
         nd = rng.randint(1, 30)
         evenly = rng.random() < 0.4
-        maxc = 0 if evenly or rng.random() < 0.3 else rng.randint(1, 5)
-        ns = rng.randint(0, nd * maxc if maxc else 100)
+        maxc = 0 if (evenly and rng.random() < 0.6) or rng.random() < 0.3 else rng.randint(1, 5)
+        ns = rng.randint(0, nd * maxc if maxc and not evenly else 100)
         if maxc and rng.random() < 0.3:
             ns = nd * maxc  # exactly filled (D5)
         shape = rng.choice(["lists", "lists", "dst_tuple", "dst_gen", "dst_keys", "same"])
